@@ -159,6 +159,20 @@ def run(facts, rep):
                 if sk(ev.term) == 'discr(arg3)' and isinstance(ev.value, int):
                     pt = ['Rows', 'Cols'][ev.value]
             tri.add((pt, a[0]))
+    # every path that reduces the matrices also updates the tracked vectors; the transforms exactly when they are recorded
+    combos = set()
+    for e, p in cs:
+        pass
+    b_ras = facts.bodies.get(CR + 'reduce_at_spec')
+    for p in SymEx(b_ras, havoc_loops=False, max_paths=40000).run():
+        if p.end != 'return':
+            continue
+        names = [e.name.split('::')[-1] for e in p.calls()]
+        m_, t_, v_ = 'update_mats' in names, 'update_trans' in names, 'update_vecs' in names
+        if m_ or t_ or v_:
+            combos.add((m_, t_, v_))
+    need(combos == {(True, True, True), (True, False, True)}, 'reduce_at_spec',
+         'the (update_mats, update_trans, update_vecs) combinations taken along the paths are %s; expected matrices and tracked vectors on every reducing path, transforms only when they are recorded' % sorted(combos))
     need(tri == {('Rows', 'TriangularType::Upper{}'), ('Cols', 'TriangularType::Lower{}')}, 'reduce_at_spec', 'pivot type / triangular type pairing is %s' % sorted(tri, key=str))
     # Schur::disassemble order
     ds = facts.bodies.get('yui_matrix::sparse::schur::Schur::<R>::disassemble')
